@@ -51,6 +51,13 @@ fn gen_tree(rng: &mut Rng, with_commands: bool) -> (Project, String) {
     for d in &dirs {
         p.add_dir(d);
     }
+    if dirs.contains(&pre("a")) && rng.chance(1, 3) {
+        // a symlinked directory beside the real one
+        p.entries.push(Entry::Symlink {
+            path: pre("lnk"),
+            target: "a".into(),
+        });
+    }
     let n = rng.range(1, 7);
     let mut srcs: Vec<String> = vec![];
     let mut outs: BTreeSet<String> = BTreeSet::new();
@@ -138,7 +145,7 @@ fn gen_input_list(rng: &mut Rng, p: &Project, base: &str) -> Vec<String> {
     let n = rng.range(1, 4);
     let mut v: Vec<String> = vec![];
     for _ in 0..n {
-        let item = match rng.below(14) {
+        let item = match rng.below(15) {
             0 | 1 => ".".to_string(),
             2 | 3 => {
                 if dirs.is_empty() {
@@ -178,6 +185,25 @@ fn gen_input_list(rng: &mut Rng, p: &Project, base: &str) -> Vec<String> {
                 (*rng.pick(&["missing.txt", "y.txt", "nothere/", "a.txtpp.b.c", "missing.txt.txtpp", "txtpp"])).to_string()
             }
             12 if !v.is_empty() => v[rng.below(v.len())].clone(),
+            13 if a.n() > 0 => {
+                // through the symlinked directory, if there is one and the source lives below it
+                let link = p.entries.iter().find_map(|e| match e {
+                    Entry::Symlink { path, .. } => Some(path.clone()),
+                    _ => None,
+                });
+                let s = &a.sources[rng.below(a.n())];
+                match link {
+                    Some(l) => {
+                        let real = format!("{}/", l.trim_end_matches("lnk").to_string() + "a");
+                        if s.out.starts_with(&real) {
+                            rel(&format!("{l}/{}", &s.out[real.len()..]))
+                        } else {
+                            rel(&s.out)
+                        }
+                    }
+                    None => rel(&s.out),
+                }
+            }
             _ => {
                 if a.n() > 0 {
                     rel(&a.sources[rng.below(a.n())].out)
